@@ -494,6 +494,13 @@ def check_c02(model, rep, tier):
         "an Image and files it with add() under the unchanged loop variables; header and compose section are written and "
         "read unconditionally. Not decided: value equality.")
     rep.not_decided = ["value equality after reload", "byte equality of the second dump"]
+    # a writer that keeps state on the object (a cached record, say) writes that state, not the object: decided first, because
+    # the table extraction below presupposes that serialize() emits the fields it reads
+    from .canonical import r_writer_pure
+    r_writer_pure(model, rep, only=("images.Image.", "images.Images."))
+    if rep.failed():
+        rep.note("the writer/reader table rules were not evaluated: the writer is not a pure function of the object")
+        return
     r_schema(model, rep, "images.Image", FLOORS["images.Image"])
     r_fields(model, rep, "images.Image")
     for q in ("common.Header", "composeinfo.Compose"):
@@ -600,6 +607,10 @@ def check_c03(model, rep, tier):
     r_keys(model, rep)
     r_nvra_glue(model, rep)
     r_reader_not_stricter(model, rep)
+    # an output method that rewrites the stored entries (dump_for_tree stripping the base path *in* the manifest's own dicts)
+    # changes what the next dump writes
+    from .canonical import r_writer_pure
+    r_writer_pure(model, rep, only=("extra_files.ExtraFiles.", "rpms.Rpms.", "modules.Modules."))
 
 
 def r_reader_not_stricter(model, rep):
